@@ -764,7 +764,8 @@ class Check:
             if self.tier == "thorough" and ob.kind == "claimed" and ob.expect == "unsat" and r.status == "unsat":
                 others = [x for x in routes if x != r.route and ob._texts.get(solve.ROUTES[x][0])][:1]
                 if others:
-                    r2 = solve.solve(None, ob._vars, others, to, self.workdir, texts=ob._texts)
+                    # second opinion under a short cap: an unanswered second route is recorded, it does not block
+                    r2 = solve.solve(None, ob._vars, others, min(to, 12), self.workdir, texts=ob._texts)
                     ob.attempts += r2.attempts
                     ob.secs += r2.secs
                     ob.second = r2.status
